@@ -248,6 +248,14 @@ def onefrag_sweep() -> list[dict]:
                 out.append({"zones": [1, 2], "onefrag": small,
                             "h": [["start", 1, z, 0, 0, 0, -1], [fault, 1, n, 0, 0, 0, 0], ["start", 2, z, 0, 1, 1, -1],
                                   ["fu", z, 0, 0, 0, 0, -1], ["fu", other, 0, 0, 0, 0, -1]]})
+    # a zone whose multi-fragment schedule has been fetched (or overheard) and is then replaced on the controller by one
+    # that fits a single fragment, fetched again - forced, or after the cached counter has aged - and once more
+    for z, other in ((1, 2), (2, 1)):
+        for pre in ([["start", 1, z, 0, 0, 0, -1]], [["heard", z, 0, 1, 0, 0, 0], ["heard", z, 0, 2, 0, 0, 0]]):
+            for again in ([["start", 2, z, 0, 1, 1, -1]], [["age", 0, 0, 0, 0, 1, -1], ["start", 2, z, 0, 0, 1, -1]]):
+                h = pre + [["bump", z, 0, 0, 0, 0, -1], ["bump", z, 0, 0, 0, 0, -1]] + again + \
+                    [["start", 3, z, 0, 1, 2, -1], ["fu", z, 0, 0, 0, 0, -1], ["fu", other, 0, 0, 0, 0, -1]]
+                out.append({"zones": [1, 2], "shrink": [z], "h": [list(e) for e in h]})
     # (reads only: the shadow model's fragment count of a *written* schedule is fixed by its version number)
     return out
 
